@@ -630,6 +630,26 @@ func (g *Gen) Step() {
 		}
 		what := []string{"message_retention_duration", "retry_policy", "labels", "filter"}[r.Intn(4)]
 		w.UpdateSub(s, what, r)
+	case "update-dl":
+		if s == nil {
+			return
+		}
+		topic := ""
+		switch r.Intn(6) {
+		case 0: // clear
+		case 1:
+			topic = "projects/p/topics/never-created"
+		default:
+			topic = g.topicNames[r.Intn(len(g.topicNames))]
+		}
+		n := int32(0)
+		if len(g.P.MaxAttempt) > 0 {
+			n = g.P.MaxAttempt[r.Intn(len(g.P.MaxAttempt))]
+		}
+		if r.Intn(5) == 0 {
+			n = 0 // the default
+		}
+		w.UpdateDeadLetter(s, topic, n)
 	case "update-ttl":
 		if s == nil {
 			return
